@@ -299,6 +299,10 @@ func main() {
 		panic(err)
 	}
 	log.ReplaceGlobals(zap.NewNop(), &log.ZapProperties{})
+	if *flagMode == "c16" {
+		runC16(*flagOut, *flagSeed, *flagN)
+		return
+	}
 	rng := rand.New(rand.NewSource(*flagSeed))
 	w := newWorld(*flagOut, *flagSeed, 4, nil)
 	defer w.rec.close()
